@@ -186,6 +186,52 @@ func stdHost(trace bool) *Host {
 	return h
 }
 
+// EnvFunVals: the real function values behind function-typed environment bindings (by tag); they
+// log into the trace of the most recently built Host.
+var EnvFunVals = map[string]*val.Val{}
+
+// EnvFuns returns reference function values f, g (num -> num), h2 (num, num -> num) and the lazy
+// lz (num, num -> num, runs its second operand only) for use as environment bindings.
+func (h *Host) EnvFuns() map[string]*ref.V {
+	logf := func(f string, a ...interface{}) { *h.Trace = append(*h.Trace, fmt.Sprintf(f, a...)) }
+	out := map[string]*ref.V{}
+	add := func(s *ref.Sig, rv *val.Val) {
+		s.Tag = "envfun:" + s.Name
+		ref.SigRegistry[s.Tag] = s
+		EnvFunVals[s.Tag] = rv
+		out[s.Name] = ref.FunV(s)
+	}
+	N := gen.Num
+	for _, fk := range []struct {
+		name string
+		k    float64
+	}{{"f", 1}, {"g", 2}} {
+		fk := fk
+		add(&ref.Sig{Name: fk.name, Params: []*gen.Ty{N}, Ret: N, Impl: func(ev *ref.Eval, x []*ref.V) (*ref.V, *ref.Fail) {
+			ev.Trace = append(ev.Trace, fmt.Sprintf("%s(%s)", fk.name, x[0].Describe()))
+			return ref.NumV(x[0].N + fk.k), nil
+		}}, val.Fun(types.Fun(fk.name, []*types.Type{types.Num}, types.Num), func(x ...*val.Val) *val.Val {
+			logf("%s(%s)", fk.name, describeReal(x[0]))
+			return val.Num(x[0].Num().V + fk.k)
+		}))
+	}
+	add(&ref.Sig{Name: "h2", Params: []*gen.Ty{N, N}, Ret: N, Impl: func(ev *ref.Eval, x []*ref.V) (*ref.V, *ref.Fail) {
+		ev.Trace = append(ev.Trace, fmt.Sprintf("h2(%s,%s)", x[0].Describe(), x[1].Describe()))
+		return ref.NumV(x[0].N*10 + x[1].N), nil
+	}}, val.Fun(types.Fun("h2", []*types.Type{types.Num, types.Num}, types.Num), func(x ...*val.Val) *val.Val {
+		logf("h2(%s,%s)", describeReal(x[0]), describeReal(x[1]))
+		return val.Num(x[0].Num().V*10 + x[1].Num().V)
+	}))
+	add(&ref.Sig{Name: "lz", Params: []*gen.Ty{N, N}, Ret: N, Lazy: true, LazyImpl: func(ev *ref.Eval, t []ref.Thunk) (*ref.V, *ref.Fail) {
+		ev.Trace = append(ev.Trace, "lz")
+		return t[1]()
+	}}, val.LazyFun(types.Fun("lz", []*types.Type{types.Num, types.Num}, types.Num), func(x ...*val.Val) *val.Val {
+		logf("lz")
+		return x[1].Fun().Call()
+	}))
+	return out
+}
+
 // RefFuns: the reference function table for an engine with this host set registered before the
 // first compilation (user registrations precede the built-ins).
 func (h *Host) RefFuns() *ref.Funs {
